@@ -438,8 +438,35 @@ fn check_third_partial_derivative_vec<const L: usize>() {
         }
         Err(e) => assert!(fail && e == err, "try_third_partial_derivative_vec: Err(e) passes through"),
     }
-    let t = third_partial_derivative_vec(|_v: &[HyperHyperDual64]| out, &xs, i, j, k);
+    // infallible variant: same result and the same seeds (it must forward the indices in the same order)
+    let mut seen2: Option<[HyperHyperDual64; L]> = None;
+    let t = third_partial_derivative_vec(
+        |v: &[HyperHyperDual64]| {
+            let mut a = [HyperHyperDual64::from_re(0.0); L];
+            let mut t = 0;
+            while t < L && t < v.len() {
+                a[t] = v[t];
+                t += 1;
+            }
+            seen2 = Some(a);
+            out
+        },
+        &xs,
+        i,
+        j,
+        k,
+    );
     assert!(eq8(tuple8_bits(&t), hhd_bits(&out)), "third_partial_derivative_vec (infallible) == the 8 parts in field order");
+    match (seen, seen2) {
+        (Some(a), Some(b)) => {
+            let mut t = 0;
+            while t < L {
+                assert!(eq8(hhd_bits(&a[t]), hhd_bits(&b[t])), "third_partial_derivative_vec (infallible): same seeds as the try_ variant (indices forwarded in order)");
+                t += 1;
+            }
+        }
+        _ => assert!(false, "third_partial_derivative_vec: closure is called"),
+    }
 }
 #[kani::proof]
 #[kani::unwind(3)]
